@@ -48,6 +48,8 @@ RespSurelyKept(r, a) == \/ SubjectOf(a) \in MustMan(r)
                         \/ (~Cfg.withSubj /\ ~Cfg.dangling)
                         \/ (SubjectOf(a) \notin blob[r] /\ ~Cfg.dangling)
 G5(r) == "gc-drops-response" \in KnownOpen => \A a \in ManSet(r) : IsArt(a) => RespSurelyKept(r, a)
+\* G1b: manifest bytes are not uploaded as a plain blob while an index that lists them is present (see G1)
+G1b(r, d) == ~\E y \in DOMAIN man[r] : d \in Range(M(CidOf(y)).children)
 \* G3: blobs of indexed manifests are not deleted through the blob API (index entry without content: outcome not pinned)
 G3(r, d) == d \notin DOMAIN man[r]
 
@@ -56,7 +58,7 @@ G3(r, d) == d \notin DOMAIN man[r]
 PushBlobOp(r, d, w) == [op |-> "PushBlob", repo |-> r, dig |-> d, chunk |-> [c |-> CidOf(d), p |-> "all"], which |-> w, alg |-> ""]
 PushBlobEffect(op) ==
   /\ blob' = [blob EXCEPT ![op.repo] = @ \cup {op.dig}]
-  /\ young' = [young EXCEPT ![op.repo] = @ \cup ({op.dig} \ blob[op.repo])]
+  /\ young' = [young EXCEPT ![op.repo] = @ \cup (IF op.which = "mono" THEN {op.dig} \ blob[op.repo] ELSE {op.dig})]
   /\ IF op.which = "mono" THEN UNCHANGED <<sess, nsess>>
      ELSE /\ nsess' = nsess + 1
           /\ sess' = Upd(sess, Handle(nsess + 1), [NoSess EXCEPT !.repo = op.repo])
@@ -74,7 +76,10 @@ NoChunk == [c |-> "", p |-> ""]
 \* operation families (state dependent sets of operation records) ---------------
 \* complete blob uploads, all four protocols
 OpsPushBlob == {PushBlobOp(r, d, w) : r \in GR, d \in BlobDigs, w \in {"mono", "postput", "chunked", "stream"}}
-FPushBlob == {o \in OpsPushBlob : o.dig \notin blob[o.repo] \/ o.which = "mono"}
+FPushBlob == {o \in OpsPushBlob : o.dig \notin blob[o.repo]}
+FRePushBlob == {o \in OpsPushBlob : o.dig \in blob[o.repo]}      \* re-uploads of content the repository already holds
+\* manifest bytes uploaded through the blob API (they are blobs, not manifests, until pushed as manifests)
+FPushManAsBlob == {PushBlobOp(r, d, w) : r \in GR, d \in ManDigs, w \in {"mono", "postput"}}
 
 \* manifest pushes that the specification accepts (references present), by tag / digest / ?digest=, known or unknown length
 OpsManPutGood ==
@@ -105,6 +110,9 @@ OpsManGet == {[op |-> "ManGet", repo |-> r, ref |-> ref, accept |-> a, method |-
                  r \in GR, ref \in AllRefs, a \in {"all", "comma", "commarev"}, m \in {"GET", "HEAD"},
                  rg \in {"", "pre", "mid", "suf"}}
 FManGet == {o \in OpsManGet : Resolve(o.repo, o.ref) # "" /\ (o.method = "HEAD" => o.range = "")}
+           \* a single media type: the stored one, or (for tags of indexes) the type of a child
+           \cup {o \in {[op |-> "ManGet", repo |-> r, ref |-> ref, accept |-> a, method |-> "GET", range |-> ""] :
+                         r \in GR, ref \in AllRefs, a \in ImageMTs \cup IndexMTs} : Resolve(o.repo, o.ref) # ""}
 
 OpsManDel == {[op |-> "ManDel", repo |-> r, ref |-> ref] : r \in GR, ref \in AllRefs}
 FManDel == {o \in OpsManDel : Resolve(o.repo, o.ref) # "" /\ (o.ref.k = "dig" => G2(o.repo, o.ref.v) /\ G4(o.repo, o.ref.v))
@@ -179,12 +187,25 @@ FSessBad ==
              d \in BlobDigs \cup {"bad:short", "bad:alg", "bad:empty"}, ch \in {[c |-> c, p |-> p] : c \in BlobCids, p \in {"all", "p2", "p3"}}} : h \in OpenH }
 FSessBadReal == {o \in FSessBad : o.op # "UpPut" \/ ~(SessUsable(o.repo, o.sess) /\ InOrder(o.cr, o.st) /\ WellFormed(o.dig)
                                      /\ DataIs(Append(sess[o.sess].parts, <<o.chunk.c, o.chunk.p>>), o.dig))}
+\* a completing PUT whose digest is well formed but is not the digest of the data (any algorithm of the universe),
+\* in particular an algorithm other than the session's after data was already sent (Verify rescans)
+FPutWrong ==
+  UNION { {[op |-> "UpPut", repo |-> sess[h].repo, sess |-> h, cr |-> "none", st |-> "ok", dig |-> d, chunk |-> ch] :
+             d \in Digs,
+             ch \in IF SessC(h) = "" THEN {[c |-> c, p |-> "all"] : c \in BlobCids}
+                    ELSE IF NextPart(h) = "p3" THEN {[c |-> SessC(h), p |-> "p3"]}
+                    ELSE IF NextPart(h) = "done" THEN {[c |-> SessC(h), p |-> "e"]}
+                    ELSE {[c |-> SessC(h), p |-> "e"]}} : h \in {x \in OpenH : SessC(x) # ""} }
+FPutWrongReal == {o \in FPutWrong : ~DataIs(Append(sess[o.sess].parts, <<o.chunk.c, o.chunk.p>>), o.dig)}
+FPutWrongAlg == {o \in FPutWrongReal : AlgOf(o.dig) # sess[o.sess].alg}
 FUpGet == {[op |-> "UpGet", repo |-> sess[h].repo, sess |-> h] : h \in OpenH}
 FUpDel == {[op |-> "UpDel", repo |-> sess[h].repo, sess |-> h] : h \in OpenH}
 
 \* families and their weights (a family is drawn with probability proportional to its number of occurrences)
 FamOps(f) ==
   CASE f = "pushblob" -> FPushBlob
+    [] f = "repushblob" -> FRePushBlob
+    [] f = "pushmanblob" -> {o \in FPushManAsBlob : G1b(o.repo, o.dig)}
     [] f = "manput"   -> FManPut
     [] f = "manputbad" -> FManPutBad
     [] f = "manputmiss" -> FManPutMissing
@@ -192,6 +213,10 @@ FamOps(f) ==
     [] f = "mandelmiss" -> FManDelMiss
     [] f = "blobget"  -> FBlobGet
     [] f = "manget"   -> FManGet
+    [] f = "mangetchild" -> {o \in {[op |-> "ManGet", repo |-> r, ref |-> TagRef(t), accept |-> a, method |-> m, range |-> ""] :
+                                      r \in GR, t \in Tags, a \in ImageMTs, m \in {"GET", "HEAD"}} :
+                               /\ o.ref.v \in DOMAIN tag[o.repo]
+                               /\ KindOfMT(man[o.repo][tag[o.repo][o.ref.v]]) = "index"}
     [] f = "blobdel"  -> FBlobDel
     [] f = "restart"  -> OpsRestart
     [] f = "tagslist" -> OpsTagsList
@@ -199,6 +224,8 @@ FamOps(f) ==
     [] f = "uppatch"  -> FUpPatchOk
     [] f = "upput"    -> FUpPutOkMatch
     [] f = "sessbad"  -> FSessBadReal
+    [] f = "putwrong" -> FPutWrongReal
+    [] f = "putwrongalg" -> FPutWrongAlg
     [] f = "upget"    -> FUpGet
     [] f = "updel"    -> FUpDel
     [] f = "gc"       -> {[op |-> "GC", repo |-> r] : r \in GR}
@@ -217,12 +244,14 @@ FamOps(f) ==
 Weights ==
   CASE Profile = "push" -> <<"pushblob", "pushblob", "pushblob", "manput", "manput", "manput", "manput", "mandel",
                              "blobget", "manget", "blobdel", "restart">>
+    [] Profile = "pull" -> <<"pushblob", "pushblob", "pushblob", "manput", "manput", "manput", "manput", "manput", "mangetchild",
+                             "mangetchild", "mangetchild", "manget", "manget", "blobget", "mandel", "restart", "repushblob">>
     [] Profile = "tags" -> <<"pushblob", "pushblob", "manput", "manput", "manput", "manput", "mandel", "mandel",
                              "tagslist", "tagslist", "manget", "restart", "mandelmiss">>
     [] Profile = "manput" -> <<"pushblob", "pushblob", "manput", "manput", "manputbad", "manputbad", "manputbad",
-                               "manputmiss", "manputmiss", "mandel", "blobdel">>
+                               "manputmiss", "manputmiss", "manputmiss", "mandel", "mandel", "blobdel", "blobdel", "pushmanblob">>
     [] Profile = "refs" -> <<"pushblob", "pushblob", "manput", "manput", "manput", "manput", "mandel", "mandel", "restart">>
-    [] Profile = "gc" -> <<"pushblob", "pushblob", "manput", "manput", "manput", "manput", "manput", "mandel", "mandel",
+    [] Profile = "gc" -> <<"pushblob", "pushblob", "repushblob", "manput", "manput", "manput", "manput", "manput", "mandel", "mandel",
                            "blobdel", "gc", "gc", "gc", "age", "age">>
     [] Profile = "layout" -> <<"pushblob", "pushblob", "manput", "manput", "manput", "manput", "mandel", "mandel", "blobdel",
                                "gc", "gc", "age", "restart", "restart", "uppost", "uppatch", "upput", "updel">>
@@ -236,9 +265,9 @@ Weights ==
     [] Profile = "gcpass" -> <<"pushblob", "pushblob", "manput", "manput", "manput", "manput", "mandel", "blobdel",
                                "gcpass", "gcpass", "age", "age", "mkcorrupt">>
     [] Profile = "sess" -> <<"uppost", "uppost", "uppatch", "uppatch", "uppatch", "upput", "upput", "sessbad", "sessbad",
-                             "upget", "updel", "restart", "blobget">>
-    [] Profile = "upload" -> <<"pushblob", "uppost", "uppost", "uppatch", "uppatch", "upput", "upput", "sessbad",
-                               "manput", "manput", "manputbad", "blobget", "manget", "blobdel">>
+                             "putwrong", "putwrongalg", "upget", "updel", "restart", "blobget">>
+    [] Profile = "upload" -> <<"pushblob", "repushblob", "uppost", "uppost", "uppatch", "uppatch", "uppatch", "upput", "upput", "sessbad",
+                               "putwrong", "putwrongalg", "putwrongalg", "manput", "manput", "manputbad", "blobget", "manget", "blobdel">>
     [] OTHER -> <<"pushblob", "manput", "mandel">>
 
 Cands(f) == FamOps(f)
@@ -254,9 +283,13 @@ MCInit ==
 \* RandomElement makes the walk a function of the simulation seed.
 MCNext ==
   /\ Len(hist) < Depth
-  /\ \E i \in {RandomElement(DOMAIN Weights)} :          \* bound once (a LET definition would be re-evaluated at every use)
-       \E C \in {Cands(Weights[i])} :
-         \E op \in {IF C = {} THEN RandomElement(Cands(Weights[1])) ELSE RandomElement(C)} :   \* the first family is never empty
+  \* bound once through singleton sets (a LET definition would be re-evaluated at every use); up to three draws of a
+  \* family before falling back to the first one, which is never empty
+  /\ \E i \in {RandomElement(DOMAIN Weights)} : \E j \in {RandomElement(DOMAIN Weights)} : \E k \in {RandomElement(DOMAIN Weights)} :
+       \E f \in {IF Cands(Weights[i]) # {} THEN i ELSE IF Cands(Weights[j]) # {} THEN j
+                  ELSE IF Cands(Weights[k]) # {} THEN k
+                  ELSE CHOOSE x \in DOMAIN Weights : Cands(Weights[x]) # {}} :
+         \E op \in {RandomElement(Cands(Weights[f]))} :
             GenDo(op) /\ hist' = Append(hist, op)
 
 MCSpec == MCInit /\ [][MCNext]_mvars
